@@ -526,7 +526,53 @@ fn step(s: &mut State, t: &mut Tape) -> Result<Option<&'static str>, Failure> {
             let it = as_inline(nav_mut(&mut s.doc, &path).ok_or_else(|| hf("doc nav"))?).ok_or_else(|| hf("doc inline"))?;
             let mt = mtable(mnav(&mut s.model, &path).ok_or_else(|| hf("model nav"))?).ok_or_else(|| hf("model inline"))?;
             let keys: Vec<String> = mt.entries.iter().map(|e| e.0.clone()).collect();
-            match t.below(3) {
+            let has_ph = mt.entries.iter().any(|(_, n)| is_ph(n));
+            match t.below(7) {
+                3 if !has_ph && keys.len() > 1 => {
+                    // (what sorting / retaining does to a placeholder slot is left open: skipped there)
+                    let rev = t.chance(1, 3);
+                    if rev {
+                        it.sort_values_by(|k1, _, k2, _| k2.get().cmp(k1.get()));
+                    } else {
+                        it.sort_values();
+                    }
+                    fn sort_inline(t: &mut Tbl, rev: bool) {
+                        t.entries.sort_by(|a, b| if rev { b.0.cmp(&a.0) } else { a.0.cmp(&b.0) });
+                        for (_, n) in t.entries.iter_mut() {
+                            if let Node::Table(x) = n {
+                                if x.kind == TblKind::Dotted {
+                                    sort_inline(x, rev);
+                                }
+                            }
+                        }
+                    }
+                    sort_inline(mt, rev);
+                    touch_line_of(&mut s.frags, &path);
+                    s.log.push(format!("{}.inline_{}", path_str(&path), if rev { "sort_values_by(reverse)" } else { "sort_values()" }));
+                    Ok(Some("inline.sort_values"))
+                }
+                4 if !has_ph && !keys.is_empty() => {
+                    let mask = t.next();
+                    let keep: Vec<String> = keys.iter().enumerate().filter(|(i, _)| mask & (1 << (i % 32)) != 0).map(|(_, k)| k.clone()).collect();
+                    it.retain(|k, _| keep.iter().any(|x| x == k));
+                    mt.entries.retain(|(k, _)| keep.contains(k));
+                    touch_line_of(&mut s.frags, &path);
+                    s.log.push(format!("{}.inline_retain({keep:?})", path_str(&path)));
+                    Ok(Some("inline.retain"))
+                }
+                5 if t.chance(1, 3) => {
+                    it.clear();
+                    mt.entries.clear();
+                    touch_line_of(&mut s.frags, &path);
+                    s.log.push(format!("{}.inline_clear()", path_str(&path)));
+                    Ok(Some("inline.clear"))
+                }
+                6 => {
+                    it.fmt();
+                    touch_line_of(&mut s.frags, &path);
+                    s.log.push(format!("{}.inline_fmt()", path_str(&path)));
+                    Ok(Some("inline.fmt"))
+                }
                 0 => {
                     let k = if !keys.is_empty() && t.chance(1, 3) { keys[t.below(keys.len())].clone() } else { t.pick(&NEW_KEYS).to_string() };
                     let (n, v) = new_scalar(&mut s.counter, t);
@@ -571,7 +617,27 @@ fn step(s: &mut State, t: &mut Tape) -> Result<Option<&'static str>, Failure> {
             let MCur::N(Node::Array(ma)) = mnav(&mut s.model, &path).ok_or_else(|| hf("model nav"))? else { return Err(hf("model array")) };
             let len = ma.len();
             let (n, v) = new_scalar(&mut s.counter, t);
-            let r = match t.below(7) {
+            let r = match t.below(10) {
+                7 if len > 1 => {
+                    // a stable sort by a key with ties: elements of the same type keep their order
+                    arr.sort_by_key(|x| x.type_name().len());
+                    ma.sort_by_key(|x| match x {
+                        Node::Table(_) => "inline table".len(),
+                        other => other.type_name().len(),
+                    });
+                    "array.sort_by_key"
+                }
+                8 => {
+                    let (n2, v2) = new_scalar(&mut s.counter, t);
+                    arr.extend([v, v2]);
+                    ma.push(n);
+                    ma.push(n2);
+                    "array.extend"
+                }
+                9 => {
+                    arr.fmt();
+                    "array.fmt"
+                }
                 0 => {
                     arr.push(v);
                     ma.push(n);
@@ -635,7 +701,44 @@ fn step(s: &mut State, t: &mut Tape) -> Result<Option<&'static str>, Failure> {
             let aot = as_aot(nav_mut(&mut s.doc, &path).ok_or_else(|| hf("doc nav"))?).ok_or_else(|| hf("doc aot"))?;
             let MCur::N(Node::Aot(ma)) = mnav(&mut s.model, &path).ok_or_else(|| hf("model nav"))? else { return Err(hf("model aot")) };
             let len = ma.len();
-            let r = match t.below(3) {
+            let r = match t.below(4) {
+                3 if len > 1 => {
+                    // keep a suffix-closed choice simple: drop every element whose index bit is clear,
+                    // but never the first one (its header fixes the array's place among the siblings)
+                    let mask = t.next() | 1;
+                    let mut idx = 0;
+                    aot.retain(|_| {
+                        let k = mask & (1 << (idx % 32)) != 0;
+                        idx += 1;
+                        k
+                    });
+                    let removed: Vec<usize> = (0..len).filter(|i| mask & (1 << (i % 32)) == 0).collect();
+                    let mut idx = 0;
+                    ma.retain(|_| {
+                        let k = mask & (1 << (idx % 32)) != 0;
+                        idx += 1;
+                        k
+                    });
+                    // fragments: removed elements vanish, the others are renumbered
+                    touch(&mut s.frags, &path);
+                    // paths below the array: gone with a removed element, renumbered otherwise
+                    let renumber = |q: &Path| -> Option<Path> {
+                        if q.len() > path.len() && q[..path.len()] == path[..] {
+                            if let Seg::Idx(j) = q[path.len()] {
+                                if removed.contains(&j) {
+                                    return None;
+                                }
+                                let mut q2 = q.clone();
+                                q2[path.len()] = Seg::Idx(j - removed.iter().filter(|r| **r < j).count());
+                                return Some(q2);
+                            }
+                        }
+                        Some(q.clone())
+                    };
+                    s.sorted = s.sorted.iter().filter_map(renumber).collect();
+                    s.moved_aot_parents = s.moved_aot_parents.iter().filter_map(renumber).collect();
+                    "aot.retain"
+                }
                 0 if s.restrict && s.excl == Excl::NoPush => return Ok(Some("excluded.push-after-sort")),
                 0 => {
                     s.excl = Excl::NoSort;
@@ -1173,7 +1276,7 @@ fn prop_with(t: &mut Tape, st: &mut Stats, probe: bool) -> Result<(), Failure> {
 
 pub fn run(args: Args) -> ! {
     let mut rep = Report::new("C08", args.tier, args.seed);
-    rep.rule = "stateful: a generated start document (every line carries a unique comment marker; repeated key-path components spelled consistently) and 1..25 generated edits on containers chosen from the current model: Table insert (new / existing key) / IndexMut assignment / remove / remove_entry / add sub-table / retain / entry().or_insert / sort_values / sort_values_by (reverse key order) / fmt / mutable-indexing probe; Item make_value / into_table / into_array_of_tables on an entry; InlineTable insert / remove / get_or_insert; Array push / push_formatted / insert / replace / remove / retain / clear; ArrayOfTables push / remove / clear. After every edit: the printed text parses (library and reference), decodes to the edited plain model (values before tables; empty arrays of tables and empty implicit/dotted tables hidden), the structure reads back as the model, and the source text `key = value # marker` of every untouched entry is still in the output verbatim. non-trivial = >= 3 edits over >= 2 containers, or a special pattern (insert after remove, replace of the last array element, table under an implicit/dotted parent, sort, array-of-tables removal); distinct by (document, edits)".into();
+    rep.rule = "stateful: a generated start document (every line carries a unique comment marker; repeated key-path components spelled consistently) and 1..25 generated edits on containers chosen from the current model: Table insert (new / existing key) / IndexMut assignment / remove / remove_entry / add sub-table / retain / entry().or_insert / sort_values / sort_values_by (reverse key order) / fmt / mutable-indexing probe; Item make_value / into_table / into_array_of_tables on an entry; InlineTable insert / remove / get_or_insert / sort_values(_by) / retain / clear / fmt; Array push / push_formatted / insert / replace / remove / retain / clear / sort_by_key (stable, with ties) / extend / fmt; ArrayOfTables push / remove / retain / clear. After every edit: the printed text parses (library and reference), decodes to the edited plain model (values before tables; empty arrays of tables and empty implicit/dotted tables hidden), the structure reads back as the model, and the source text `key = value # marker` of every untouched entry is still in the output verbatim. non-trivial = >= 3 edits over >= 2 containers, or a special pattern (insert after remove, replace of the last array element, table under an implicit/dotted parent, sort, array-of-tables removal); distinct by (document, edits)".into();
     rep.assumptions = vec![
         "raw decor setters, set_dotted/set_implicit/set_position are outside the quantifier (property text)".into(),
         "comparison of untouched fragments is modulo CR (CR handling is C03's subject)".into(),
@@ -1206,7 +1309,7 @@ pub fn run(args: Args) -> ! {
     finish_run(&mut rep, "edits", run);
     let run = run_tape("C08.f18probe", &prop_f18probe, 3000, args.tier.pick(30_000, 400_000), args.seed, workers());
     finish_run(&mut rep, "f18probe", run);
-    for c in ["entry.make_value", "entry.into_table", "entry.into_array_of_tables", "table.vivify-probe", "inline.vivify-probe", "table.insert-new", "table.insert-existing", "table.remove", "table.add-table", "table.add-table-under-implicit-or-dotted", "table.retain", "table.sort_values", "table.sort_values_by", "inline.insert", "inline.remove", "array.push", "array.insert", "array.replace", "array.replace-last", "array.remove", "aot.push", "aot.remove"] {
+    for c in ["entry.make_value", "entry.into_table", "entry.into_array_of_tables", "table.vivify-probe", "inline.vivify-probe", "table.insert-new", "table.insert-existing", "table.remove", "table.add-table", "table.add-table-under-implicit-or-dotted", "table.retain", "table.sort_values", "table.sort_values_by", "inline.sort_values", "inline.retain", "inline.fmt", "array.sort_by_key", "array.extend", "array.fmt", "aot.retain", "inline.insert", "inline.remove", "array.push", "array.insert", "array.replace", "array.replace-last", "array.remove", "aot.push", "aot.remove"] {
         rep.require_class(c);
     }
     rep.finish()
